@@ -44,7 +44,7 @@ DEFAULT_PROFILE = {
   "hide_field": 0.5,
   "retype_empty": 1,
   "replace_with_trigger": 3,
-  "column_cycle": 0.7, "summary_chain": 0.7, "resave_formula": 1.5, "rename_retype": 2.5, "ref_reach_retype": 1, "show_group_field": 0.5,
+  "column_cycle": 0.7, "summary_chain": 0.7, "resave_formula": 1.5, "rename_retype": 2.5, "ref_reach_retype": 1, "show_group_field": 0.5, "upsert_formula_key": 2,
   "remove_readd": 2,
   "add_empty_column": 2,
   "stale_undo": 1,
@@ -1373,6 +1373,33 @@ class Gen(object):
     if self.rng.random() < 0.2:
       opts["add"] = self.rng.random() < 0.5
     return ["AddOrUpdateRecord", t["tableId"], require, vals, opts]
+
+  def g_upsert_formula_key(self, w):
+    """An edit followed, IN THE SAME BUNDLE, by an AddOrUpdateRecord whose lookup key is a FORMULA column: the lookup
+    forces the formula column (and whatever it reads) to be evaluated in the middle of the bundle, outside the
+    end-of-bundle calculation; the values computed there must still reach `stored` / `undo`."""
+    rng = self.rng
+    ts = [t for t in w.user_tables() if t["rows"] and [c for c in w.formula_cols(t) if c["colId"] != "group"]
+          and w.data_cols(t)]
+    if not ts:
+      return None
+    t = rng.choice(ts)
+    f = rng.choice([c for c in w.formula_cols(t) if c["colId"] != "group"])
+    first = self.g_update_record(w) if rng.random() < 0.6 else self.g_bulk_update(w)
+    dc = rng.choice(w.data_cols(t))
+    key = rng.choice([0, 1, 2, 3, 4, 6, 10, 12, "x", "x!", "", None, True])
+    opts = {}
+    if rng.random() < 0.7:
+      opts["add"] = False
+    if rng.random() < 0.5:
+      opts["on_many"] = rng.choice(["first", "none", "all"])
+    up = ["AddOrUpdateRecord", t["tableId"], {f["colId"]: key}, {dc["colId"]: self.value_for(w, dc, allow_bad=False)}, opts]
+    row = rng.choice(t["rows"])
+    edit = ["UpdateRecord", t["tableId"], row, {c["colId"]: self.value_for(w, c) for c in rng.sample(w.data_cols(t), min(2, len(w.data_cols(t))))}]
+    uas = [edit, up]
+    if first is not None and not isinstance(first, tuple) and rng.random() < 0.5:
+      uas = [first] + uas
+    return (uas,)
 
   def g_temp_ids(self, w):
     """A group of actions using negative temporary ids (returned as a tuple => several actions)."""
